@@ -81,7 +81,7 @@ func classifyStd(fn *ssa.Function) stdInfo {
 		case fnName == "Compact", fnName == "CompactFunc", fnName == "Delete", fnName == "DeleteFunc", fnName == "Insert", fnName == "Replace", fnName == "Grow", fnName == "Clip":
 			return stdInfo{Class: stdMutatesArg, MutArg: 0, CallsArg: -1}
 		case fnName == "Contains", fnName == "ContainsFunc", fnName == "Index", fnName == "IndexFunc", fnName == "Equal", fnName == "EqualFunc",
-			fnName == "BinarySearch", fnName == "BinarySearchFunc", fnName == "IsSorted", fnName == "IsSortedFunc", fnName == "Compare":
+			fnName == "BinarySearch", fnName == "BinarySearchFunc", fnName == "IsSorted", fnName == "IsSortedFunc", fnName == "Compare", fnName == "CompareFunc":
 			return stdInfo{Class: stdPure, MutArg: -1, CallsArg: -1, NoPanic: true}
 		case fnName == "Max", fnName == "Min":
 			return stdInfo{Class: stdPure, MutArg: -1, CallsArg: -1}
@@ -110,6 +110,9 @@ func classifyStd(fn *ssa.Function) stdInfo {
 			"unicode.IsSpace", "unicode.IsLetter", "unicode.IsDigit", "unicode.ToLower", "unicode.ToUpper", "unicode.IsUpper", "unicode.IsLower",
 			"strconv.Itoa", "strconv.Atoi", "strconv.Quote", "errors.Is", "errors.Unwrap":
 			si.NoPanic = true
+		}
+		if pkg == "cmp" {
+			si.NoPanic = true // Compare, Less, Or on ordered values
 		}
 		switch name {
 		case "strings.Fields", "strings.Split", "strings.SplitN", "regexp.Compile", "(*regexp.Regexp).FindStringIndex", "(*regexp.Regexp).FindStringSubmatch", "(*regexp.Regexp).FindAllString":
